@@ -397,6 +397,12 @@ func (i *Instance) DeleteNode(nodeId string) {
 		}
 	}
 
+	// Like every other operation that is handed an ID: an unknown one is an
+	// error, not a successful deletion of nothing.
+	if nodeToDelete == nil {
+		panic(fmt.Errorf("no node exists with id %q", nodeId))
+	}
+
 	for filename, producer := range i.producers {
 		if i.nodeIDs[producer.Node()] == nodeId {
 			delete(i.producers, filename)
